@@ -217,10 +217,9 @@ Proof.
   - repeat match goal with |- context [if ?x then _ else _] => destruct x end; try exact I.
     destruct (fi_sub f1) as [[l1 s1]|]; try exact I. destruct (fi_sub f2) as [[l2 s2]|]; try exact I. apply IH.
   - apply Hseq.
-  - destruct (negb (existsb (qkey_match mid f0 me) (snd st))); [exact I|].
+  - destruct (q_take mid f0 me (snd st)) as [q'|]; [|exact I].
     destruct (frag_ff s frs f0) as [[fm2 fns]|]; [|exact I].
-    exact (Hseq (CBetween me m fm2 :: map (CFieldsFrag me mid m) fns)
-                (fst st, filter (fun k => negb (qkey_match mid f0 me k)) (snd st)) false).
+    exact (Hseq (CBetween me m fm2 :: map (CFieldsFrag me mid m) fns) (fst st, q') false).
   - destruct (str_eqb f1 f2); [exact I|]. destruct (negb (existsb (pkey_match f1 f2 me) (fst st))); [exact I|].
     destruct (frag_ff s frs f1) as [[fm1 fns1]|]; [|exact I].
     destruct (frag_ff s frs f2) as [[fm2 fns2]|]; [|exact I].
